@@ -44,14 +44,17 @@ ASSUMPTIONS = [
 ]
 RULE = ("generated source trees (depth <= 4, fan-out <= 4, adversarial names, readmes in every letter case, scalable and "
         "unscalable recipes, equal titles, symbolic links to files and directories, M in 1..12) plus planted faults "
-        "(recipe stating more than M servings, missing titles, broken recipes, several readmes); non-trivial = more than 3 "
-        "pages or an error")
+        "(recipe stating more than M servings, missing titles, broken recipes, several readmes); suite site-history: "
+        "generate, edit recipes / readmes in place (also at the same length with the timestamps restored: serving counts, "
+        "quantities), generate again in the same process - compared with the model and with a fresh process; "
+        "non-trivial = more than 3 pages or an error / at least 2 generations")
 
 
 def suites(tier: str, seed: int) -> List[Suite]:
     site = SC.site_suite()
+    hist = SC.history_suite()
     if tier == "replay":
-        return [site]
+        return [site, hist]
     if tier == "quick":
         plan = [("valid", "small", 8), ("valid", "medium", 22), ("valid", "deep", 6), ("errors", "small", 6),
                 ("max-servings", "small", 4), ("errors", "medium", 6), ("f12", "small", 3)]
@@ -59,7 +62,9 @@ def suites(tier: str, seed: int) -> List[Suite]:
         plan = [("valid", "small", 300), ("valid", "medium", 1000), ("valid", "deep", 300), ("errors", "small", 200),
                 ("errors", "medium", 200), ("max-servings", "medium", 100), ("f12", "small", 30), ("f12", "medium", 30)]
     site.cases = SC.gen_site_cases("C15", seed, plan)
-    return [site]
+    # the compile cache (recipe_directory.py) must not make a page show a recipe as it was before an edit
+    hist.cases = SC.gen_edit_history_cases(seed, 8 if tier == "quick" else 120)
+    return [site, hist]
 
 
 def replay(inp: Any) -> Case:
